@@ -76,9 +76,23 @@ def sub_general(case):
     obj = real.build(case["traj"]["pre"], timed=timed)
     obj.project(PLANE[plane])
     check_projected(obj, real.P, real.T, plane, real.n, "projection")
-    for other in case["second"]:
+    for k, other in enumerate(case["second"]):
+        # "the same object": also after other operations were applied to it in between
+        for op in (case.get("between") or [])[k:k + 2]:
+            if op == "tl":
+                obj.transform(rm.se3(rm.rodrigues(np.array([0.3, -0.2, 0.5])), np.array([1.0, 2.0, -3.0])))
+            elif op == "tr":
+                obj.transform(rm.se3(rm.rodrigues(np.array([0.0, 0.7, 0.1])), np.array([0.5, 0.0, 0.25])), right_mul=True)
+            elif op == "scale":
+                obj.scale(2.0)
+            elif op == "ids" and obj.num_poses > 1:
+                obj.reduce_to_ids(list(range(obj.num_poses - 1)))
+            elif op == "origin":
+                obj.align_origin(real.build(timed=timed))
+            elif op == "read":
+                obj.positions_xyz, obj.orientations_quat_wxyz, obj.poses_se3
         _second_projection_refused(obj, other)
-    return plane
+    return plane + ("/ops_between" if case.get("between") else "")
 
 
 def planar_pose(plane, heading, uv, w=0.0):
@@ -169,6 +183,7 @@ st_general = st.integers(1, 10).flatmap(lambda n: st.fixed_dictionaries({
         lambda a, b, s: {"q": rm.R_to_quat(rm.rodrigues(np.array([0, 0, 1.0]) * a) @ rm.rodrigues(np.array([0, 1.0, 0]) * s * math.pi / 2) @ rm.rodrigues(np.array([1.0, 0, 0]) * b)).tolist()},
         gen.fl(-3.1, 3.1), gen.fl(-3.1, 3.1), st.sampled_from([1.0, -1.0])))),
     "second": st.lists(st.sampled_from(["xy", "xz", "yz"]), min_size=1, max_size=2),
+    "between": st.lists(st.sampled_from(["tl", "tr", "scale", "ids", "origin", "read"]), max_size=3),
 }))
 st_planar = st.fixed_dictionaries({
     "plane": st.sampled_from(["xy", "xz", "yz"]),
